@@ -738,7 +738,7 @@ func (pe *pathEnum) stmt(in []Path, s ast.Stmt) []Path {
 					lbl = "select comm"
 					q.Events = append(q.Events, pe.events(cl.Comm)...)
 				}
-				addCond(&q, CondStep{Label: lbl, Taken: true})
+				addCond(&q, CondStep{Label: lbl, Taken: true, Node: s})
 				out = append(out, pe.seq([]Path{q}, cl.Body)...)
 			}
 		}
